@@ -26,10 +26,10 @@ PROP = dict(
           'selector)); non-trivial = at least two threads run the same codec '
           'on the same shared pool array concurrently; distinct by hash of '
           '(thread count, repeats, pool contents, assignment)'),
-    quick=dict(configs=['tsan', 'rel'], cases=60000, maxlen=200, workers=8,
-               shares={'tsan': 6, 'rel': 2}),
-    thorough=dict(configs=['tsan', 'rel'], cases=600000, maxlen=200, workers=8,
-                  shares={'tsan': 6, 'rel': 2}, fuzz_s=0),
+    quick=dict(configs=['tsan', 'rel'], cases=52000, maxlen=200, workers=12,
+               shares={'tsan': 9, 'rel': 3}),
+    thorough=dict(configs=['tsan', 'rel'], cases=60000, maxlen=200, workers=12,
+                  shares={'tsan': 9, 'rel': 3}, fuzz_s=0),
     required_classes=['concurrent.for', 'concurrent.pfor', 'concurrent.dict',
                       'concurrent.dict.shared', 'concurrent.adaptive.auto',
                       'concurrent.decode.shared', 'concurrent.float',
